@@ -110,6 +110,38 @@ def run(ctx):
             if (kind, val) != (got[0], got[1] if got[0] != 'ok' else [tuple(p) for p in got[1]]):
                 ctx.disagreement('visibility mask: implementation and model differ',
                                  {'visibility': name, 'grid': cg, 'agent': pos, 'impl': got, 'model': [kind, val]})
+    # (d) large views (hundreds of rays: counters must not saturate or wrap): agent visible, chain, model comparison
+    big = [(15, 15), (7, 31), (11, 11)] if ctx.tier == 'quick' else [(15, 15), (7, 31), (31, 7), (3, 63), (9, 9), (11, 11), (13, 13), (17, 17), (15, 31), (31, 31)]
+    breqs, bmetas = [], []
+    for (h, w) in big:
+        for dens in (0.0, 0.08, 0.25):
+            cg = tuple(tuple(WALL if r.random() < dens else FLOOR for _ in range(w)) for _ in range(h))
+            pos = (h - 1, w // 2) if r.random() < 0.6 else (h - 1, r.randrange(w))
+            cg = gen.set_cell(cg, pos, FLOOR)
+            for name in ('raytracing', 'partially_occluded'):
+                got = mask_of(name, cg, pos)
+                ctx.count('large view ' + name, f'{h}x{w}')
+                ctx.case((name, cg, pos), True, None)
+                case = {'visibility': name, 'shape': (h, w), 'agent': pos, 'wall_density': dens, 'grid': cg}
+                if got[0] != 'ok':
+                    ctx.violation(f'{name} raised {got[1]} on a {h}x{w} view', case)
+                    continue
+                if tuple(pos) not in got[1]:
+                    ctx.violation(f'{name}: the agent\'s own cell is not visible in a {h}x{w} view', case)
+                if not adjacent_chain_ok(cg, pos, got[1]):
+                    ctx.violation(f'{name}: a visible cell has no chain of adjacent transparent visible cells to the agent ({h}x{w} view)', case)
+                if dens == 0.0 and len(set(map(tuple, got[1]))) != h * w:
+                    ctx.violation(f'{name}: an unobstructed {h}x{w} view does not show everything', case)
+                breqs.append(vis_request(name, cg, pos, []))
+                bmetas.append((name, cg, pos, got))
+    answers = ctx.model(breqs)
+    if answers is not None:
+        for (name, cg, pos, got), ans in zip(bmetas, answers):
+            R = wire.Reader(ans)
+            kind, val, log = R.outcome(lambda: sorted(set(R.lst(R.pos))))
+            if (kind, val) != (got[0], got[1] if got[0] != 'ok' else [tuple(p) for p in got[1]]):
+                ctx.disagreement('visibility mask (large view): implementation and model differ',
+                                 {'visibility': name, 'shape': gen.shape_of(cg), 'agent': pos, 'grid': cg})
     # (b) pair oracle on the observation functions
     n = 150 if ctx.tier == 'quick' else 1500
     ometas, oreqs = [], []
